@@ -75,7 +75,7 @@ class NNDVI(BatchDetector):
         )
         if d_act > theta_drift:
             self._drift_state = "drift"
-            self.set_reference(test_batch)
+            self.reference_batch = test_batch
 
     def set_reference(self, X, y_true=None, y_pred=None):
         """
@@ -89,6 +89,7 @@ class NNDVI(BatchDetector):
         """
         X, _, _ = super()._validate_input(X, None, None)
         self.reference_batch = X
+        self.batches_since_reset = 0  # a new reference starts a new epoch
 
     def reset(self):
         """
